@@ -178,8 +178,8 @@ def gen_strip():
     if not m:
         raise AnchorError("anchor not found: addWhitespaceElement: linear search, break on a score comparison, insert before")
     facts["insert_cmp"] = m.group(1) or {"<": ">=", "<=": ">"}[m.group(2)]
-    if m.group(1) not in (">=", ">"):
-        raise AnchorError("addWhitespaceElement: comparison %s not modelled" % m.group(1))
+    if facts["insert_cmp"] not in (">=", ">"):
+        raise AnchorError("addWhitespaceElement: comparison %s not modelled" % facts["insert_cmp"])
     # processPreserveStripSpace: tokens in order, one tester each
     pb = _norm(function_body(sh, r"StylesheetHandler::processPreserveStripSpace\s*\([^)]*\)\s*\{", "processPreserveStripSpace"))
     need(lit("while(tokenizer.hasMoreTokens()){ tokenizer.nextToken(theNameTest); m_stylesheet.addWhitespaceElement( XalanSpaceNodeTester( isPreserveSpace==true? XalanSpaceNodeTester::ePreserve: XalanSpaceNodeTester::eStrip,"), pb,
